@@ -30,7 +30,13 @@ type HarnessSpec struct {
 	Params  map[string]map[string]int `json:"params"`  // tier -> name -> value
 	TierSpec map[string]json.RawMessage `json:"tier_spec"` // tier -> partial Spec override
 	Note    string                    `json:"note"`
+	FindingReplays map[string]FindingReplay `json:"finding_replays"` // known-finding id -> native demonstration test
 	ExtraDirs []string                `json:"extra_dirs"`
+}
+
+type FindingReplay struct {
+	File string `json:"file"`
+	Test string `json:"test"`
 }
 
 type PropSpec struct {
@@ -180,6 +186,13 @@ func main() {
 		for _, v := range r.sh.Violations {
 			path := writeReplay(prop, r.h, v, *tier)
 			confirmed, note := confirmNatively(ps, r.h, path, v)
+			// violations inside a known-finding region of a stub-based harness: run the finding's native
+			// demonstration (real keys / real storage) instead of the model replay
+			for _, reg := range v.Regions {
+				if fr, ok := r.h.FindingReplays[reg]; ok {
+					confirmed, note = runFindingReplay(ps.Property, r.h, fr)
+				}
+			}
 			r.replays++
 			allKnown := len(v.Regions) > 0
 			for _, reg := range v.Regions {
@@ -429,6 +442,20 @@ func confirmNatively(ps *PropSpec, h HarnessSpec, path string, v *sym.Violation)
 	return false, "native outcome: " + firstLineWith(out, "VERIF-OUTCOME", "VERIF-REPLAY")
 }
 
+// runFindingReplay runs a native Go test that demonstrates a listed finding against the real code.
+func runFindingReplay(prop string, h HarnessSpec, fr FindingReplay) (bool, string) {
+	h2 := h
+	h2.Files = nil
+	out, err := nativeTest(prop, h2, map[string]string{filepath.Join(sym.RepoDir, h.PkgDir, "zz_verif_finding_test.go"): filepath.Join(verifDir, "harness", prop, fr.File)}, "^"+fr.Test+"$", "")
+	if err != nil {
+		return false, "finding demonstration failed to run: " + err.Error()
+	}
+	if strings.Contains(out, "VERIF-REPLAY: ASSERT-FAILED") {
+		return true, "(finding demonstrated natively by " + fr.Test + ") "
+	}
+	return false, "finding demonstration did not reproduce: " + firstLineWith(out, "VERIF-REPLAY", "FAIL", "ok")
+}
+
 func firstLineWith(out string, keys ...string) string {
 	for _, l := range strings.Split(out, "\n") {
 		for _, k := range keys {
@@ -443,27 +470,13 @@ func firstLineWith(out string, keys ...string) string {
 // nativeReplay compiles harness + real package natively (go test -overlay) and runs the entry on the model.
 func nativeReplay(prop string, h HarnessSpec, replayPath string) (string, error) {
 	work := filepath.Join(verifDir, ".work", prop+"-"+h.Entry)
-	os.RemoveAll(work)
-	if err := os.MkdirAll(work, 0o755); err != nil {
-		return "", err
-	}
-	defer os.RemoveAll(work)
-	repl := map[string]string{}
+	os.MkdirAll(work, 0o755)
 	pkgName := ""
 	for _, f := range h.Files {
-		real := filepath.Join(verifDir, "harness", prop, f)
-		repl[filepath.Join(sym.RepoDir, h.PkgDir, "zz_verif_"+filepath.Base(f))] = real
 		if pkgName == "" {
-			pkgName = packageClause(real)
+			pkgName = packageClause(filepath.Join(verifDir, "harness", prop, f))
 		}
 	}
-	tmpl, err := os.ReadFile(filepath.Join(verifDir, "harness/api/zz_verif_api.go.tmpl"))
-	if err != nil {
-		return "", err
-	}
-	api := filepath.Join(work, "api.go")
-	os.WriteFile(api, []byte(strings.Replace(string(tmpl), "PKGNAME", pkgName, 1)), 0o644)
-	repl[filepath.Join(sym.RepoDir, h.PkgDir, "zz_verif_api.go")] = api
 	test := filepath.Join(work, "replay_test.go")
 	os.WriteFile(test, []byte(fmt.Sprintf(`package %s
 
@@ -477,7 +490,39 @@ func TestVerifReplay(t *testing.T) {
 	fmt.Println("VERIF-OUTCOME: " + out)
 }
 `, pkgName, h.Entry)), 0o644)
-	repl[filepath.Join(sym.RepoDir, h.PkgDir, "zz_verif_replay_test.go")] = test
+	extra := map[string]string{filepath.Join(sym.RepoDir, h.PkgDir, "zz_verif_replay_test.go"): test}
+	return nativeTest(prop, h, extra, "^TestVerifReplay$", replayPath)
+}
+
+// nativeTest runs `go test -run pattern` in the harness package with the harness files, the API file, the
+// wasm stub and the given extra files overlaid; the package's own tests are neutralised.
+func nativeTest(prop string, h HarnessSpec, extra map[string]string, pattern, replayPath string) (string, error) {
+	work := filepath.Join(verifDir, ".work", prop+"-"+h.Entry)
+	if err := os.MkdirAll(work, 0o755); err != nil {
+		return "", err
+	}
+	defer os.RemoveAll(work)
+	repl := map[string]string{}
+	for k, v := range extra {
+		repl[k] = v
+	}
+	pkgName := ""
+	for _, f := range h.Files {
+		real := filepath.Join(verifDir, "harness", prop, f)
+		repl[filepath.Join(sym.RepoDir, h.PkgDir, "zz_verif_"+filepath.Base(f))] = real
+		if pkgName == "" {
+			pkgName = packageClause(real)
+		}
+	}
+	if len(h.Files) > 0 {
+		tmpl, err := os.ReadFile(filepath.Join(verifDir, "harness/api/zz_verif_api.go.tmpl"))
+		if err != nil {
+			return "", err
+		}
+		api := filepath.Join(work, "api.go")
+		os.WriteFile(api, []byte(strings.Replace(string(tmpl), "PKGNAME", pkgName, 1)), 0o644)
+		repl[filepath.Join(sym.RepoDir, h.PkgDir, "zz_verif_api.go")] = api
+	}
 	// neutralise the package's own tests (their TestMain may create files under /repo)
 	ents, _ := os.ReadDir(filepath.Join(sym.RepoDir, h.PkgDir))
 	for i, e := range ents {
@@ -495,20 +540,20 @@ func TestVerifReplay(t *testing.T) {
 	ovj, _ := json.Marshal(map[string]interface{}{"Replace": repl})
 	ovp := filepath.Join(work, "overlay.json")
 	os.WriteFile(ovp, ovj, 0o644)
-	cmd := exec.Command("go", "test", "-vet=off", "-count=1", "-overlay", ovp, "-run", "^TestVerifReplay$", "-v", "./"+h.PkgDir)
+	cmd := exec.Command("go", "test", "-vet=off", "-count=1", "-overlay", ovp, "-run", pattern, "-v", "./"+h.PkgDir)
 	cmd.Dir = sym.RepoDir
 	cmd.Env = append(os.Environ(), "GOFLAGS=-mod=mod", "GOPROXY=off", "GOSUMDB=off", "GOTOOLCHAIN=local", "VERIF_REPLAY="+replayPath)
 	done := make(chan struct{})
 	var out []byte
 	go func() {
-		out, err = cmd.CombinedOutput()
+		out, _ = cmd.CombinedOutput()
 		close(done)
 	}()
 	select {
 	case <-done:
 	case <-time.After(10 * time.Minute):
 		cmd.Process.Kill()
-		return "", fmt.Errorf("native replay timed out")
+		return "", fmt.Errorf("native test timed out")
 	}
 	s := string(out)
 	if strings.Contains(s, "[build failed]") || strings.Contains(s, "[setup failed]") {
